@@ -188,7 +188,9 @@ def select_predicate(ast, rows, params, named=None):
     produced', plus the list of ORDER BY key Vals (with desc flags)."""
     if ast[0] != "select":
         raise SqlUnsupported("not a SELECT")
-    _, distinct, items, sources, where, order = ast
+    _, distinct, items, sources, where, order, limit = ast
+    if limit is not None:
+        raise SqlUnsupported("LIMIT in a per-row translation")
     env = Env({}, params, named)
     for src in sources:
         if src[0] != "table":
